@@ -360,9 +360,9 @@ func RunOneShot(kind string, text string, timeoutSec int, scratch string) OneSho
 	var args []string
 	switch kind {
 	case "z3":
-		bin, args = "/usr/bin/z3", []string{"-T:" + strconv.Itoa(timeoutSec), f.Name()}
+		bin, args = "/usr/bin/z3", []string{"-T:" + strconv.Itoa(timeoutSec), "-memory:6000", f.Name()}
 	case "z3-new":
-		bin, args = "z3-new", []string{"-T:" + strconv.Itoa(timeoutSec), f.Name()}
+		bin, args = "z3-new", []string{"-T:" + strconv.Itoa(timeoutSec), "-memory:6000", f.Name()}
 	case "cvc5":
 		bin, args = "cvc5", []string{"--produce-models", "--tlimit=" + strconv.Itoa(timeoutSec*1000), f.Name()}
 	}
